@@ -37,5 +37,18 @@ You MUST verify all of this yourself: for each change run the full test suite wi
 Finally reply with a short summary: for each change, one line describing it and confirming the three verifications (tests pass with change / demo fails with change / demo passes without)."""
 
 
+def prompt2(pid: str) -> str:
+    """Round 2: same information (property text only), different emphasis: less central code, cooperating sites, state."""
+    p = props[pid]
+    files = ", ".join(p["anchors"]["files"])
+    base = prompt(pid).replace(f"/tmp/seed-{pid}", f"/tmp/seed2-{pid}")
+    base = base.replace("TASK: produce THREE different, independent changes", "TASK: produce FOUR different, independent changes")
+    base = base.replace("For EACH change k in 1..3", "For EACH change k in 1..4")
+    extra = f"""
+
+ADDITIONAL GUIDANCE FOR THIS ROUND: the obvious one-line edits in the most central function have already been tried by others. Look elsewhere: helper functions the central code relies on, constructors and setters that prepare the state the central code reads, cooperating sites that must agree with each other (a writer and a reader, a table and its inverse, a source-side and a destination-side twin), values computed once and reused, code paths only taken for one platform / one object kind / an empty or single-element collection / a boundary number, and error-handling paths. The property's implementation is spread over these files: {files}. Use at least three different files or clearly different mechanisms across your four changes. A change may consist of two small edits in two places if neither edit alone looks wrong."""
+    return base.replace("\nTASK:", extra + "\n\nTASK:", 1)
+
+
 if __name__ == "__main__":
-    print(prompt(sys.argv[1]))
+    print(prompt2(sys.argv[1]) if len(sys.argv) > 2 and sys.argv[2] == "2" else prompt(sys.argv[1]))
